@@ -107,13 +107,20 @@ def main(argv):
         return 3
     _G["reg"], _G["repo"] = reg, repo
     timeout = 30 if tier == "quick" else 120
-    keys = [k for k, c in reg["contracts"].items() if prop in c.props and not c.abstract and not c.trusted]
+    keys = [k for k, c in reg["contracts"].items()
+            if (prop in c.props or prop in c.prop_groups) and not c.abstract and not c.trusted]
     keys += [k for k, lm in reg["lemmas"].items() if prop in lm.props]
     keys += derive_override_contracts(reg, repo, prop)
     # heavy clause groups (facets) are verified in passes of their own: key@facet
     from pyvc.verify import facets_of
     keys += [f"{k}@{f}" for k in list(keys) if k in reg["contracts"] for f in facets_of(k, reg)]
     results = run_functions(keys, timeout)
+    # functions of which this property owns only some obligations (Contract.prop_groups)
+    import re as _re
+    for r in results:
+        c = reg["contracts"].get(r["key"].split("@")[0])
+        if c is not None and prop not in c.props and prop in c.prop_groups:
+            r["groups"] = {g: v for g, v in r["groups"].items() if _re.search(c.prop_groups[prop], g)}
     # property-level analyses (frames / flows / effect traces / lemmas): plug-ins returning the same group format
     extra = []
     try:
